@@ -50,6 +50,19 @@ pub fn viol(
 
 /// Count what the transport actually did in this run (fired, not configured).
 pub fn count_transport(st: &mut Stats, sc: &Scenario, end: &RunEnd) {
+    if sc.recycled.is_some() {
+        st.hit("fault:recycled_buffer");
+        if sc.meta("no_initial_parse") == Some(1) {
+            st.hit("fault:read_before_first_parse");
+        }
+    }
+    if !sc.neighbors.is_empty() {
+        st.hit("fault:interleaved_neighbours");
+        st.add(
+            "fault:neighbour_steps",
+            sc.neighbors.iter().map(|n| n.cuts.len() as u64).sum(),
+        );
+    }
     st.add("fault:reads", end.reads);
     st.add("fault:eintr", end.eintr);
     match end.ended_by {
